@@ -12,6 +12,7 @@ mod docs;
 mod evt; mod stk;
 mod ext;
 mod gaps;
+mod hs;
 mod json;
 mod lww;
 mod mapread;
@@ -156,6 +157,11 @@ fn cmd_search(args: &[String]) -> i32 {
         let search = if evt::is_target(&target) { evt::cmd_search } else { stk::cmd_search };
         return search(&target, universe, jobs, deadline);
     }
+    // y-sync handshake, document half (hs.rs: handshake)
+    if hs::is_target(&target) {
+        let deadline = max_seconds.map(|t| Instant::now() + Duration::from_secs_f64(t.max(0.0)));
+        return hs::cmd_search(&target, universe, jobs, deadline);
+    }
     // last-writer-wins per map key / XML attribute (lww.rs: lww | lww_map | lww_attr | lww_nested)
     if lww::is_target(&target) {
         let deadline = max_seconds.map(|t| Instant::now() + Duration::from_secs_f64(t.max(0.0)));
@@ -171,7 +177,7 @@ fn cmd_search(args: &[String]) -> i32 {
         die(&format!("--universe must be in 1..={}", MAX_UNIVERSE));
     }
     let groups = search::groups_for(&target)
-        .unwrap_or_else(|| die(&format!("unknown target {:?}; targets: {} | {} | {} | {} | {} | {} | {} | {} | {} | {}", target, seqread::TARGETS, lww::TARGETS,search::TARGETS, ext::TARGETS, evt::TARGETS, stk::TARGETS, mapread::TARGETS, quote::TARGETS, updlog::TARGETS, converge::TARGETS)));
+        .unwrap_or_else(|| die(&format!("unknown target {:?}; targets: {} | {} | {} | {} | {} | {} | {} | {} | {} | {} | {}", target, hs::TARGETS, seqread::TARGETS, lww::TARGETS,search::TARGETS, ext::TARGETS, evt::TARGETS, stk::TARGETS, mapread::TARGETS, quote::TARGETS, updlog::TARGETS, converge::TARGETS)));
     let mut s = Search {
         n: universe,
         seed,
@@ -266,6 +272,9 @@ fn cmd_replay(args: &[String]) -> i32 {
     if evt::owns(&j) || stk::owns(&j) {
         let replay =if evt::owns(&j) { evt::cmd_replay } else { stk::cmd_replay };
         return replay(&j).unwrap_or_else(|e| die(&format!("replay: {}", e)));
+    }
+    if hs::owns(&j) {
+        return hs::cmd_replay(&j).unwrap_or_else(|e| die(&format!("replay: {}", e)));
     }
     if lww::owns(&j) {
         return lww::cmd_replay(&j).unwrap_or_else(|e| die(&format!("replay: {}", e)));
